@@ -57,7 +57,7 @@ def parse_snapshot(tokens):
         k = vals[i]
         if k == "act":
             log.append(("act", vals[i + 1], vals[i + 2], vals[i + 3])); i += 4
-        elif k in ("acterr", "sched", "cancel", "cut", "err", "can"):
+        elif k in ("acterr", "sched", "cancel", "cut", "err", "can", "enter", "leave"):
             log.append((k, vals[i + 1])); i += 2
         elif k == "trans":
             l, j = read_list(i + 2)
